@@ -380,6 +380,13 @@ E2 = {"as_surface": _patch_spec(), "as_polyline": _polyline_spec()}
 
 
 def obligations(tier):
+    obs = _obligations(tier)
+    for o in obs:
+        o.path_wall_s = max(o.path_wall_s, 300.0)      # NRA queries: generous per-path budget (a timeout is never a pass)
+    return obs
+
+
+def _obligations(tier):
     q = tier == "quick"
     npts = 2 if q else 3
     obs = [
